@@ -546,7 +546,9 @@ def pcgeom(nr, npp, ncp, ri, ncmar):
     # cr = np.clip(cr, 1.e-3, nr - 1.001)
     # cp = np.clip(cp, 1.e-3, npp - 1.001)
     cr = np.clip(cr, 1e-3, nr - 1.001)  # - 1.00)
-    cp = np.clip(cp, 1e-3, npp - 1.001)  # - 1.00)
+    # the azimuth is periodic: the cell between the last sample and the first
+    # one (index npp, see pol2car) is interpolated like every other cell
+    cp = np.clip(cp, 1e-3, npp - 1e-3)
 
     geom = {'px': px, 'py': py, 'cr': cr, 'cp': cp,
             'pincx': pincx, 'pincy': pincy, 'pincw': pincw,
@@ -564,6 +566,9 @@ def pol2car(cpgeom, pol, mask=False):
     '''
     # f = interp2d(cpgeom['cr'], cpgeom['cp'], pol)
 
+    # close the azimuthal axis: column npp is column 0 again (otherwise the
+    # last cell is held at its left sample and the map shows a seam at phi = 0)
+    pol = np.concatenate((pol, pol[:, :1]), axis=1)
     cd = map_coordinates(pol, [cpgeom['cr'], cpgeom['cp']],
                          order=1, mode='nearest')
     if mask is not False:
